@@ -1707,7 +1707,7 @@ class C02(Check):
 
     decl_share = 0.3
     ptype_share = 0.08
-    multi_share = 0.012
+    multi_share = 0.008
 
     def cases(self, tier, rng, n):
         out = []
